@@ -55,7 +55,13 @@ func Dump(repo *core.Repo, dir, only string) {
 			if n.Imperative {
 				imp = " [imperative]"
 			}
-			fmt.Printf("%s%s (opaque=%d) = %s\n", f.Name, imp, f.Opaques, ir.String(p.PkgPath, t))
+			label := f.Name
+			for k, g := range prog.ByName {
+				if g == f {
+					label = k
+				}
+			}
+			fmt.Printf("%s%s (opaque=%d) = %s\n", label, imp, f.Opaques, ir.String(p.PkgPath, t))
 		}
 		fmt.Printf("-- %s: %d functions, %d opaque nodes\n", p.PkgPath, len(prog.Funcs), tot)
 		if only == "" {
